@@ -81,12 +81,16 @@ type manualDeadline struct {
 	context.Context
 	once sync.Once
 	done chan struct{}
+	err  error
 }
 
 func (m *manualDeadline) Done() <-chan struct{} { return m.done }
 func (m *manualDeadline) Err() error {
 	select {
 	case <-m.done:
+		if m.err != nil {
+			return m.err
+		}
 		return context.DeadlineExceeded
 	default:
 		return nil
@@ -108,11 +112,12 @@ type World struct {
 	clock   int64
 	lastNow sync.Map // gid -> model time of the last clock read
 	// a tick armed inside a step (under mu)
-	tickProc   string
-	tickJump   int64
-	tickFired  bool
-	tickInside bool
-	reapplies  int
+	tickProc    string
+	tickJump    int64
+	tickFired   bool
+	tickInside  bool
+	reapplies   int
+	adminWindow bool // an admin purge is being called (purges of foreign goroutines are slowed down)
 	// GateStoreGet: MemStore.Get is a scheduler gate (relaxed-locking schedules only)
 	GateStoreGet bool
 	// CorruptGzip: cacheable answers of the scripted upstream carry a gzip body that does not decode
@@ -323,7 +328,8 @@ func (w *World) restartDispatchers() {
 }
 
 func (w *World) cacheConfigs() []config.CacheConfig {
-	var ccs []config.CacheConfig
+	// a cache nobody uses, with a short period, is always listed first: caches do not inherit from their neighbours
+	ccs := []config.CacheConfig{{Name: "zz-first", Size: 10, HitForPass: "1s"}}
 	for _, c := range w.dispCfgs {
 		cc := config.CacheConfig{Name: c.Name, Size: c.Size}
 		if c.HfpTTL > 0 {
@@ -610,11 +616,16 @@ func (w *World) finish(ri *ReqInfo, code int, h http.Header, body []byte, res *R
 	errClass := "none"
 	label := res.Label
 	if res.Panic != nil {
-		errClass = "upstream"
+		// the scripted panic of the handler chain, or an origin that broke off inside the body, are the environment's
+		// doing; any other panic is pike's own
+		errClass = "own"
+		if ri.used.Kind == "panic" || ri.used.Kind == "cut" || ri.used.Kind == "error" || ri.used.Kind == "timeout" || ri.used.Kind == "gone" {
+			errClass = "upstream"
+		}
 		res.Ver = 0
 	} else if code >= 400 && h.Get("X-Ver") == "" {
 		// an error generated by pike: caused by the upstream outcome, or its own
-		if ri.used.Kind == "error" || ri.used.Kind == "timeout" {
+		if ri.used.Kind == "error" || ri.used.Kind == "timeout" || ri.used.Kind == "gone" {
 			errClass = "upstream"
 		} else {
 			errClass = "own"
@@ -799,9 +810,16 @@ func (w *World) point(pt string, obj interface{}, args ...interface{}) {
 		}
 		w.mu.Unlock()
 	case "purge.lock":
+		foreign := w.S.Current() == nil
 		w.mu.Lock()
 		w.purging[gid] = true
+		delay := w.adminWindow && foreign
 		w.mu.Unlock()
+		if delay {
+			// a purge that arrived through the admin endpoint takes a while to get going: when the endpoint has
+			// answered, the purge must be over all the same
+			time.Sleep(150 * time.Millisecond)
+		}
 	case "purge.removed":
 		k := string(args[1].([]byte))
 		w.mu.Lock()
@@ -961,6 +979,11 @@ func (w *World) upstreamHandler(rw http.ResponseWriter, req *http.Request) {
 		rw.WriteHeader(200)
 		return
 	}
+	if out.Kind == "gone" && ri.timer != nil {
+		// the client goes away while the origin is silent: its request context is cancelled
+		ri.timer.err = context.Canceled
+		out.Kind = "timeout"
+	}
 	if out.Kind == "timeout" {
 		// the origin stays silent and the proxy's timer fires
 		w.mu.Lock()
@@ -1068,6 +1091,14 @@ func (w *World) AdminPurgeCall(name string, ds []string, model string, concreteK
 		}
 	})
 	w.Emit(Event{"op": "PurgeCall", "ds": ds, "k": model})
+	w.mu.Lock()
+	w.adminWindow = true
+	w.mu.Unlock()
+	defer func() {
+		w.mu.Lock()
+		w.adminWindow = false
+		w.mu.Unlock()
+	}()
 	q := url.Values{}
 	q.Set("key", concreteKey)
 	if name != "" {
@@ -1183,6 +1214,9 @@ func Mangle(data []byte, class string) []byte {
 		return append([]byte{}, data[:n]...)
 	case "cut_c":
 		return append([]byte{}, data[:len(data)-4]...)
+	case "cut_m":
+		// the cut falls inside an integer field
+		return append([]byte{}, data[:len(data)-3]...)
 	case "badstatus":
 		d := append([]byte{}, data...)
 		d[0], d[1], d[2], d[3] = 0, 0, 0, 1
